@@ -949,6 +949,11 @@ class reg(exp):
             # operators adjust the sign flag of their operands in place:
             # don't let them alter the constant stored in env.
             r = cst(r.v, r.size)
+        elif r.sf != self.sf:
+            # the register's view of signedness applies to the value read,
+            # not to the expression stored in env (which may be shared):
+            from copy import copy
+            r = copy(r)
         r.sf = self.sf
         return r
 
